@@ -36,6 +36,8 @@ import YarlProofs.C03Bracket
                    addresses (IPvFuture "[v1.a:b]", "[g::1]", "[a:b]"), see the section "bracketed hosts …" below.
 
   Continued in C03HeadlineMore3.lean (sentence 2 mechanism by mechanism: GAPS 5; `encoded=True` / all entry points: GAPS 6).
+  Continued in C03HeadlineMore5.lean (C03Encoded.lean, added later: `encoded=True` on already-canonical TEXT, hypothesis
+  on the input string — GAPS 6).
 -/
 set_option linter.unusedVariables false
 namespace Yarl
@@ -889,7 +891,8 @@ GAPS:
     non-IPv6 host the dropped default port also drops the brackets of a host without ':' — the printed string is still
     a fixed point (C03_headline_bracketed_host_default_port, item 2 (i); restated as the last clause of
     C03_headline_mech_bracketed_host).
- 6. PARTLY CLOSED by C03_mech_encoded_true_fixed_point, C03_mech_encoded_true_noncanonical_counterexample (C03Mech.lean)
+ 6. PARTLY CLOSED (constructor on canonical text: CLOSED on the input side, see FURTHER CLOSED below) by
+    C03_mech_encoded_true_fixed_point, C03_mech_encoded_true_noncanonical_counterexample (C03Mech.lean)
     and reachE_of_record (ReachE.lean: `ReachE` = the closure of ALL entry points of the model, the four `encoded=True`
     ones included), see C03_headline_encoded_true_fixed_point, C03_headline_all_entry_points_fixed_point,
     C03_headline_encoded_true_fails_for_noncanonical (C03HeadlineMore3.lean).  `encoded=True` entry points are still
@@ -900,12 +903,42 @@ GAPS:
     whose STORED RECORD satisfies the four hypotheses.  For `encoded=True` objects the property text is FALSE without
     that: URL('http://EXAMPLE.com/a/../b c', encoded=True) is a `ReachE` URL, prints its text verbatim, and
     URL(str(v)) prints 'http://example.com/b%20c' (C03_headline_encoded_true_fails_for_noncanonical; not a defect,
-    `encoded=True` is the caller's promise).  STILL OPEN: the four hypotheses are hypotheses on the stored record, and
-    `ReachE` cannot supply them (every cache-free record of Python strings is in `ReachE`: reachE_of_record); there is
-    NO input-side characterisation of the `encoded=True` texts that give a canonical record (no `ReachEX` instance for
-    C03), and no own theorem for `build(encoded=True)`, `with_path(…, encoded=True)`, `joinpath(…, encoded=True)` — for
-    those the reader must establish `CanonUrl` / `NetlocCanonB` of the result (decidable per record:
-    `canonUrlB_sound`, as in C03MechChecks.lean).
+    `encoded=True` is the caller's promise).  WAS STILL OPEN: the four hypotheses are hypotheses on the stored record,
+    and `ReachE` cannot supply them (every cache-free record of Python strings is in `ReachE`: reachE_of_record); there
+    was NO input-side characterisation of the `encoded=True` texts that give a canonical record.
+    FURTHER CLOSED — for the CONSTRUCTOR `URL(s, encoded=True)` only — by C03_encoded_true_on_canonical,
+    C03_canonical_text_ascii, C03_encoded_true_same_parts, C03_encoded_true_canonical_iff (+ _of_domainB),
+    C03_same_parts_not_canonical, C03_prints_not_canonical, C03_canonical_text_well_escaped_fails_for_zone_id
+    (C03Encoded.lean), see C03_headline_encoded_true_on_canonical_text, …_in_domain, …_every_accessor,
+    C03_headline_canonical_text_ascii, C03_headline_canonical_text_well_escaped_fails_for_zone_id,
+    C03_headline_encoded_true_same_parts, C03_headline_encoded_true_canonical_iff,
+    C03_headline_same_parts_fails_to_give_canonical, C03_headline_prints_fails_to_give_canonical
+    (C03HeadlineMore5.lean).  Proved, with the hypothesis on the INPUT STRING: for EVERY `s` with `canonicalB s = true`
+    (the computable checker of C04Decide.lean — a hand-written reading of "already canonical", C04Headline.lean
+    GAPS 7; both backends, every oracle assignment, no other hypothesis) `URL(s, encoded=True)` and `URL(s)` succeed,
+    store the same five parts (the Appendix-B components of `s`), are `==`, both print `s`, `s` is a fixed point of
+    both constructors from either object, the `encoded=True` record satisfies the four hypotheses (`CanonUrl`,
+    `NetlocCanonB`, `SchemeOK'`, `C03Guards`: every C03 theorem about such records applies), its lazily derived
+    authority cache is the pre-filled one and all 53 accessors agree; such an `s` is ASCII and component-wise well
+    escaped (the whole string when the `host[:port]` text has no '%' — guard NEEDED: a zone id,
+    'http://[fe80::1%eth0]:8080/p', F-C01-host-percent).  CONVERSE, under the HYPOTHESIS `C04_Domain e.o s p`
+    (C04Headline.lean GAPS 8: Python string, `split_url` succeeds, authority empty or of a supported ASCII host kind in
+    any spelling, no IPv4 literal with a zone id; `C04_domainB s = true` suffices): `canonicalB s` IFF the two
+    constructors store the same five parts AND the `encoded=True` object prints `s`.  Neither conjunct alone suffices
+    (PROVED FALSE): "same parts" holds for 'http://h:80/', 'HTTP://h/', 'http://h/a?', ' http://h/', 'http://h?q',
+    none canonical; "prints `s`" holds for 'http://EXAMPLE.com/a/../b c'.  "Same parts" alone still gives
+    indistinguishable objects and canonical components (C03_headline_encoded_true_same_parts).
+    STILL OPEN: (a) this is NOT a characterisation of "the `encoded=True` texts that give a canonical RECORD": by the
+    five witnesses a non-canonical text can give a canonical record (`URL('HTTP://h/', encoded=True)` IS
+    `URL('http://h/', encoded=True)`: computed `example` at the end of C03HeadlineMore5.lean); the iff characterises `canonicalB s`, i.e. record canonical AND printed back as `s`.  (b) The
+    converse is proved inside `C04_Domain` only (non-ASCII / IDN authorities, host-less authorities, IPv4 with a zone
+    id, a space in the host are outside; C04Headline.lean GAPS 5 lists fixed points the checker rejects there).
+    (c) Still NO C03 theorem of its own for `build(encoded=True)`, `with_path(…, encoded=True)`,
+    `joinpath(…, encoded=True)` and no `ReachEX` instance for C03 — for those the reader must establish `CanonUrl` /
+    `NetlocCanonB` of the result (decidable per record: `canonUrlB_sound`, as in C03MechChecks.lean); for the path
+    clause alone there is now the closure C15_headline_reachE_no_dot_segments (C15HeadlineMore5.lean: no dot segment
+    and empty-or-rooted under an authority, over all entry points with per-entry side conditions), which gives two of
+    the five clauses of `CanonUrl` (`nodots`, `rooted`), not the whole of it.
  7. CLOSED by C03_fixed_point_eq (C03Netloc.lean), see C03_headline_equal_iff_no_default_port (and the `==`
     clauses of C03_headline_constructor_fixed_point, _build_fixed_point, _reachable_from_valid_input,
     _op_sequence_from_valid_input).  For every reachable URL with the hypotheses of C03_headline_identical_string_form,
